@@ -62,6 +62,7 @@ fn main() {
     println!("  {:?}: {:?},", "t055", format!("{:?}", mrtest::t055()));
     println!("  {:?}: {:?},", "t056", format!("{:?}", mrtest::t056()));
     println!("  {:?}: {:?},", "t057", format!("{:?}", mrtest::t057()));
-    println!("  {:?}: {:?}", "t058", format!("{:?}", mrtest::t058()));
+    println!("  {:?}: {:?},", "t058", format!("{:?}", mrtest::t058()));
+    println!("  {:?}: {:?}", "t059", format!("{:?}", mrtest::t059()));
     println!("}}");
 }
